@@ -113,7 +113,8 @@ def w_tdvp2(ctx, rng, idx):
     h, N = float(rng.uniform(0.01, 0.3)), int(rng.integers(1, 4))
     H, h, usc = units(rng, H, h)
     thr = [0, 1e-12][int(rng.integers(0, 2))]
-    mr = [10 ** 4, np.inf, 2][int(rng.integers(0, 3))] if kind != 'maximal' else [10 ** 4, np.inf][int(rng.integers(0, 2))]
+    tight = max(gen.max_ranks(dims, [1] * len(dims)))  # (the largest rank these mode sizes admit: a bound that is tight but cuts nothing)
+    mr = [10 ** 4, np.inf, 2, tight][int(rng.integers(0, 4))] if kind != 'maximal' else [10 ** 4, np.inf, tight][int(rng.integers(0, 3))]
     ctx.describe({'op': 'tdvp2site', 'dims': dims, 'complex': cplx, 'ranks': x0.ranks, 'kind': kind, 'h': h, 'steps': N, 'threshold': thr, 'max_rank': str(mr)})
     nz = 0 if rng.random() < 0.8 else 2
     call('ode.tdvp2site', ode.tdvp2site, H, x0, h, N, prop=P, tags=['scheme=tdvp2site'], threshold=thr, max_rank=mr, normalize=nz)
@@ -145,7 +146,7 @@ def w_krylov(ctx, rng, idx):
     h = float(rng.uniform(0.05, 1.0))
     H, h, usc = units(rng, H, h)
     ctx.describe({'op': 'krylov', 'dims': dims, 'complex': cplx, 'dimension': n, 'h': h})
-    call('ode.krylov', ode.krylov, H, x0, n, h, prop=P, threshold=[0, 1e-14, 1e-12][int(rng.integers(0, 3))], max_rank=10 ** 4, normalize=[0, 0, 2][int(rng.integers(0, 3))])
+    call('ode.krylov', ode.krylov, H, x0, n, h, prop=P, threshold=[0, 1e-14, 1e-12][int(rng.integers(0, 3))], max_rank=10 ** 4 if rng.random() < 0.7 else max(gen.max_ranks(dims, [1] * d)), normalize=[0, 0, 2][int(rng.integers(0, 3))])
     if rng.random() < 0.5:  # the same operator / state objects again: another step size, and the objects changed in place by their owner
         call('ode.krylov', ode.krylov, H, x0, n, float(rng.uniform(0.05, 1.0)) / usc, prop=P, threshold=0, max_rank=10 ** 4, tags=['second_call'])
         with probe.oracle():
